@@ -241,17 +241,7 @@ theorem notifyChildren_flag (R : List Reg) (par0 : Nat × Nat) (kids : List (Nat
       · rename_i st' evs hn
         obtain ⟨n1, n2, n3, n4⟩ := notifyParentCertified_spec hn
         have hsl : st'.slot = cs := n1.trans (slotState_snd_slot p cs)
-        have hev : ∀ ev ∈ evs, ev ≠ Event.panic := by
-          intro ev hev
-          unfold SlotState.notifyParentCertified at hn
-          split at hn
-          · cases hn
-          · dsimp only at hn
-            split at hn
-            · cases hn; cases hev
-            · cases hn
-              generalize (SlotState.checkS2N _ _ ch).2 = res at hev
-              cases res <;> simp [s2nOut] at hev <;> subst hev <;> simp
+        have hev : Event.panic ∉ evs := notifyParentCertified_events hn
         have := ih ((p.slotState cs).1.putSlot st') (acc ++ evs) (fun k hk => hreg k (by simp [hk])) (by
           intro r hr
           apply (hF r hr).mod hsl
@@ -275,7 +265,7 @@ theorem notifyChildren_flag (R : List Reg) (par0 : Nat × Nat) (kids : List (Nat
         intro hm
         rcases List.mem_append.mp hm with hm | hm
         · exact hacc hm
-        · exact hev _ hm rfl
+        · exact hev hm
 
 /-- `notify_waiting_children(par0)` closes the exemption, and never hits `parent not known` -/
 theorem notifyWaiting_flag (R : List Reg) (p : Pool) (par0 : Nat × Nat) (hW : WaitReg R p)
@@ -317,34 +307,51 @@ def FlagInv (R : List Reg) (p : Pool) : Prop := WaitReg R p ∧ ∀ r ∈ R, Fla
 def FlagMid (R : List Reg) (c : Cert) (p : Pool) : Prop :=
   WaitReg R p ∧ ∀ r ∈ R, FlagOk p (wakes c) (kidsOf p (c.slot, c.hash)) r
 
+/-- the pool right after `add_valid_cert(c)` stored the certificate in its slot state -/
+def Pool.stored (p : Pool) (c : Cert) : Pool := (p.slotState c.slot).1.putSlot ((p.slotState c.slot).2.addCert c)
+
+/-- storing the certificate opens the exemption for the children of the certified block -/
+theorem FlagInv.stored {R : List Reg} {p : Pool} (h : FlagInv R p) (c : Cert) : FlagMid R c (p.stored c) := by
+  unfold Pool.stored
+  have hfr := mod_frame p c.slot ((p.slotState c.slot).2.addCert c)
+  refine ⟨h.1.of_waiting hfr.2.2, fun r hr => ?_⟩
+  have h0 : FlagOk p (wakes c) (kidsOf p (c.slot, c.hash)) r := by
+    cases hw : wakes c with
+    | none => exact (h.2 r hr).none_rem
+    | some par0 =>
+      have : par0 = (c.slot, c.hash) := by
+        unfold wakes at hw; split at hw
+        · cases hw
+        · cases hw
+        · cases hw; rfl
+      rw [this]; exact (h.2 r hr).exempt _
+  have hk : kidsOf ((p.slotState c.slot).1.putSlot ((p.slotState c.slot).2.addCert c)) (c.slot, c.hash) = kidsOf p (c.slot, c.hash) := by
+    unfold kidsOf; rw [hfr.2.2]
+  rw [hk]
+  apply h0.mod ((addCert_slot _ c).trans (slotState_snd_slot p c.slot))
+  · intro y f hy; left; rw [addCert_parents]; exact hy
+  · intro y hy
+    rcases addCert_isNfOrStronger _ c y hy with a | ⟨a, b⟩
+    · exact Or.inl a
+    · right; rw [wakes_strong a, b]
+  · intro k hk'; exact Or.inl hk'
+
+theorem FlagMid.advance {R : List Reg} {c : Cert} {q : Pool} (hq : FlagMid R c q) (t : Finality.Tracker) (r : ParentReady.Res)
+    (hm : q.fin.first ≤ t.first) : FlagMid R c (q.advance t r) :=
+  ⟨hq.1.advance t r, fun r' hr' => (hq.2 r' hr').advance t r hm (fun _ hk hf => kidsOf_advance t r hk hf)⟩
+
+/-- waking the children closes the exemption and never hits `parent not known` -/
+theorem FlagMid.wake {R : List Reg} {c : Cert} {q : Pool} (hq : FlagMid R c q) (hs : c.kind = .notar ∨ c.kind = .nf ∨ c.kind = .ff) :
+    FlagInv R (q.notifyWaiting (c.slot, c.hash)).1 ∧ Event.panic ∉ (q.notifyWaiting (c.slot, c.hash)).2 := by
+  unfold FlagMid at hq
+  rw [wakes_strong hs] at hq
+  have := notifyWaiting_flag R q _ hq.1 hq.2
+  exact ⟨⟨hq.1.notifyWaiting _, this.1⟩, this.2⟩
+
 theorem addValidCert_flag (R : List Reg) (c : Cert) (p : Pool) (h : FlagInv R p) : FlagInv R (p.addValidCert c).1 := by
   apply addValidCert_ind c p (FlagInv R) (FlagMid R c)
-  · -- the certificate is stored
-    have hfr := mod_frame p c.slot ((p.slotState c.slot).2.addCert c)
-    refine ⟨h.1.of_waiting hfr.2.2, fun r hr => ?_⟩
-    have h0 : FlagOk p (wakes c) (kidsOf p (c.slot, c.hash)) r := by
-      cases hw : wakes c with
-      | none => exact (h.2 r hr).none_rem
-      | some par0 =>
-        have : par0 = (c.slot, c.hash) := by
-          unfold wakes at hw; split at hw
-          · cases hw
-          · cases hw
-          · cases hw; rfl
-        rw [this]; exact (h.2 r hr).exempt _
-    have hk : kidsOf ((p.slotState c.slot).1.putSlot ((p.slotState c.slot).2.addCert c)) (c.slot, c.hash) = kidsOf p (c.slot, c.hash) := by
-      unfold kidsOf; rw [hfr.2.2]
-    rw [hk]
-    apply h0.mod ((addCert_slot _ c).trans (slotState_snd_slot p c.slot))
-    · intro y f hy; left; rw [addCert_parents]; exact hy
-    · intro y hy
-      rcases addCert_isNfOrStronger _ c y hy with a | ⟨a, b⟩
-      · exact Or.inl a
-      · right; rw [wakes_strong a, b]
-    · intro k hk'; exact Or.inl hk'
-  · intro q t r hm hq
-    refine ⟨hq.1.advance t r, fun r' hr' => ?_⟩
-    exact (hq.2 r' hr').advance t r hm (fun k hk hf => kidsOf_advance t r hk hf)
+  · exact h.stored c
+  · intro q t r hm hq; exact hq.advance t r hm
   · intro q r hq
     obtain ⟨_, hf, hw⟩ := applyPr_frame q r
     refine ⟨hq.1.of_waiting hw, fun r' hr' => ?_⟩
@@ -354,10 +361,7 @@ theorem addValidCert_flag (R : List Reg) (c : Cert) (p : Pool) (h : FlagInv R p)
   · intro q r hq
     obtain ⟨_, hf, hw⟩ := applyPr_frame q r
     exact ⟨hq.1.of_waiting hw, fun r' hr' => (hq.2 r' hr').of_views hf (getSlot_applyPr q r) hw⟩
-  · intro hs q hq
-    unfold FlagMid at hq
-    rw [wakes_strong hs] at hq
-    exact ⟨hq.1.notifyWaiting _, (notifyWaiting_flag R q _ hq.1 hq.2).1⟩
+  · intro hs q hq; exact (hq.wake hs).1
   · intro hs q hq
     unfold FlagMid at hq
     rw [wakes_weak hs] at hq
@@ -472,23 +476,13 @@ theorem addBlockTail_new (r : Pool) (b par : Nat × Nat) (e0 : List Event)
         | some _ => rfl
       have hg' : ((r.slotState b.1).1.putSlot st').getSlot b.1 = some st' := by
         rw [getSlot_mod r b.1 st' hsl, if_pos rfl]
-      have hev : ∀ ev ∈ evs, ev ≠ Event.panic := by
-        intro ev hev
-        unfold SlotState.notifyParentCertified at hn
-        split at hn
-        · cases hn
-        · dsimp only at hn
-          split at hn
-          · cases hn; cases hev
-          · cases hn
-            generalize (SlotState.checkS2N _ _ b.2).2 = res at hev
-            cases res <;> simp [s2nOut] at hev <;> subst hev <;> simp
+      have hev : Event.panic ∉ evs := notifyParentCertified_events hn
       split
       · refine ⟨hwait _ st' hg' (by rw [htrue]; rfl) (fun hf => by rw [htrue] at hf; cases hf), fun h => h⟩
       · refine ⟨fun _ => ⟨st', hg', Or.inl htrue⟩, fun h hm => ?_⟩
         rcases List.mem_append.mp hm with hm | hm
         · exact h hm
-        · exact hev _ hm rfl
+        · exact hev hm
   · rename_i hc
     refine ⟨hwait r st0 hg0 hk0 ?_, fun h => h⟩
     intro _ hh
@@ -496,6 +490,29 @@ theorem addBlockTail_new (r : Pool) (b par : Nat × Nat) (e0 : List Event)
     obtain ⟨ps, hg, hi⟩ := hh
     unfold Pool.certifiedB
     rw [hg]; exact hi
+
+/-- `add_block`'s own call of `notify_parent_certified` is for the entry it has just created: no `parent not known` -/
+theorem addBlockTail_no_panic (r : Pool) (b par : Nat × Nat) (e0 : List Event) (cert : Bool)
+    (hk : ∃ st, r.getSlot b.1 = some st ∧ (st.parents.lookup b.2).isSome = true) (h0 : Event.panic ∉ e0) :
+    Event.panic ∉ (Pool.addBlockTail r b par e0 cert).2 := by
+  obtain ⟨st0, hg0, hk0⟩ := hk
+  have hst0 : (r.slotState b.1).2 = st0 := slotState_snd_of_some hg0
+  unfold Pool.addBlockTail
+  split
+  · split
+    · rename_i hn
+      exfalso
+      rw [hst0] at hn
+      obtain ⟨st', evs, hn'⟩ := notifyParentCertified_isSome (e := (r.slotState b.1).1.epoch) hk0
+      rw [hn] at hn'; cases hn'
+    · rename_i st' evs hn
+      split
+      · exact h0
+      · intro hm
+        rcases List.mem_append.mp hm with hm | hm
+        · exact h0 hm
+        · exact notifyParentCertified_events hn hm
+  · exact h0
 
 /-- the registrations an operation adds to the ghost list -/
 def regsOf (p : Pool) : PoolOp → List Reg
